@@ -253,6 +253,46 @@ def _label_cases():
                             yield (kind, old, lab, mode, rp, geo)
 
 
+def _check_shared_argument(case):
+    """two tiers constructed from ONE list object (canonical Interval / Point items, as a caller building several tiers from one
+    annotation would hand over): every insert / delete on the first leaves the second tier and the caller's list as they were"""
+    kind, form, op = case
+    if kind == "I":
+        raw = [(0.0, 1.0, "a"), (1.0, 2.0, "b"), (3.0, 4.0, "c")]
+        L = [Interval(*e) for e in raw] if form == "namedtuples" else ([list(e) for e in raw] if form == "lists" else list(raw))
+        t1, t2 = IT("w", L, 0.0, 5.0), IT("p", L, 0.0, 5.0)
+    else:
+        raw = [(0.5, "a"), (1.5, "b"), (3.5, "c")]
+        L = [Point(*e) for e in raw] if form == "namedtuples" else ([list(e) for e in raw] if form == "lists" else list(raw))
+        t1, t2 = PT("w", L, 0.0, 5.0), PT("p", L, 0.0, 5.0)
+    snapshot = [tuple(e) for e in L]
+    before2 = canon(t2)
+    if op[0] == "del":
+        st, r, _ = call(t1.deleteEntry, t1.entries[op[1]])
+    elif kind == "I":
+        st, r, _ = call(t1.insertEntry, Interval(op[1], op[2], "n"), op[3], "silence")
+    else:
+        st, r, _ = call(t1.insertEntry, Point(op[1], "n"), op[2], "silence")
+    viols = []
+    if canon(t2) != before2:
+        viols.append(Viol("tiers-share-entries", f"two tiers built from one list ({form}): {op} on the first changed the second to {canon(t2)[4]}"))
+    if [tuple(e) for e in L] != snapshot:
+        viols.append(Viol("constructor-argument-mutated", f"{op} on a tier changed the list it was constructed from ({form}): {L}"))
+    return 1, "ok", (kind, form, op[0]), viols
+
+
+def _shared_argument_cases():
+    for form in ("namedtuples", "tuples", "lists"):
+        for i in range(3):
+            yield ("I", form, ("del", i))
+            yield ("P", form, ("del", i))
+        for m in CMODES:
+            for a, b in ((2.0, 3.0), (0.5, 1.5), (4.0, 5.0), (-1.0, 0.0)):
+                yield ("I", form, ("ins", a, b, m))
+            for a in (2.5, 0.5, 4.5):
+                yield ("P", form, ("ins", a, m))
+
+
 def _prune(state):
     return any(len(e[-1]) > LABCAP for e in state[4])
 
@@ -353,4 +393,9 @@ def parts(tier):
                              "every entry left, for every ordered pair of labels from %d texts that contain printf, str.format, regex, escape and "
                              "quote characters (and the tier name 't%%'), x 3 collision modes x 2 reporting modes, against the list model" % len(SPECIAL),
                         bounds={"labels": len(SPECIAL), "entries": 1}))
+    ps.append(InputPart("constructor-argument-independence", _shared_argument_cases, _check_shared_argument,
+                        rule="two tiers constructed from ONE list object (items given as Interval / Point named tuples, plain tuples, lists) x every deleteEntry "
+                             "and a set of insertEntry calls x 3 modes on the first tier: the second tier and the caller's list stay as they were", bounds={}))
+    from mc.props import live as _live_hist
+    ps.append(_live_hist.history_part())
     return ps
